@@ -559,7 +559,15 @@ func Guard(x *h.Ctx, fn func()) (ok bool) {
 		st := string(debug.Stack())
 		sig := h.PanicSignature(st)
 		if sig == "panic:outside-nuts-node" {
-			x.Fatalf("panic outside nuts-node: %v\n%s", r, st)
+			// no nuts-node production frame on the stack: a step the harness performed directly on a library object
+			// (its own decode / encode / inspection). Counted, never a violation, never a harness failure.
+			lib := faultingLibraryFrame(st)
+			if lib == "" {
+				lib = "harness"
+			}
+			x.Class("harness-step-library-panic:" + lib)
+			ok = false
+			return
 		}
 		if lib := faultingLibraryFrame(st); lib != "" {
 			sig += "@" + lib
@@ -578,6 +586,17 @@ func Guard(x *h.Ctx, fn func()) (ok bool) {
 // nuts-node code ("" otherwise).
 func faultingLibraryFrame(stack string) string {
 	lines := strings.Split(stack, "\n")
+	// a panic that was recovered and raised again (encoding/json does that) shows several "panic(" lines: the original
+	// fault is below the last one
+	last := -1
+	for i, l := range lines {
+		if strings.HasPrefix(l, "panic(") {
+			last = i
+		}
+	}
+	if last > 0 {
+		lines = lines[last:]
+	}
 	seenPanic := false
 	for i := 0; i < len(lines); i++ {
 		l := lines[i]
@@ -603,4 +622,29 @@ func faultingLibraryFrame(stack string) string {
 		return fn
 	}
 	return ""
+}
+
+// Own runs a step the HARNESS performs on its own behalf (decoding, encoding or inspecting a library object to build the
+// next input or a digest). A panic in there is a defect of the library as used by the harness, not of a nuts-node entry
+// point — whatever frames happen to be on the stack: it is counted as class "harness-step-library-panic:<func>" and the case
+// goes on. Returns false when fn panicked.
+func Own(x *h.Ctx, fn func()) (ok bool) {
+	defer func() {
+		r := recover()
+		if r == nil {
+			return
+		}
+		tn := fmt.Sprintf("%T", r)
+		if tn == "h.harnessError" || strings.HasPrefix(tn, "rapid.") || strings.HasPrefix(tn, "*rapid.") {
+			panic(r)
+		}
+		lib := faultingLibraryFrame(string(debug.Stack()))
+		if lib == "" {
+			lib = "harness"
+		}
+		x.Class("harness-step-library-panic:" + lib)
+		ok = false
+	}()
+	fn()
+	return true
 }
